@@ -10,6 +10,12 @@ TRUST = ("Trusted base: the Go type checker and go/ssa (x/tools v0.29.0) as a fa
 
 # id -> (technique, level text, level_note, design_ref)
 CLAIMED = {
+    "C08": (
+        "may-panic / may-hang obligation inventory over the library's own code: bounds (compiler prove pass + residue rules), nil-dereference of decoder-produced pointers before validation (access paths + guard sets), type assertions, explicit panics/exits, nil map stores, nil calls through globals/maps, arithmetic, loop forms and recursion",
+        "Decides for every function of the library packages that each construct able to panic or to loop forever on input-derived data is guarded: every index/slice in range, every decoded pointer nil-tested before use in pre-validation code, "
+        "no unchecked type assertion, no explicit panic/exit, nil-guarded map stores and dynamic calls, only element/counted loops over finite collections (plus the blocking event loop), no recursion.",
+        TRUST + "Dependencies (yaml, gojsonschema, fsnotify, OCI generator) are assumed not to panic on what the library passes them; resource exhaustion is out of scope.",
+        "DESIGN.md §4 C08"),
     "C07": (
         "bounds obligations discharged by the Go compiler's prove pass (-d=ssa/check_bce) plus named residue rules; decoded return/condition tables over SSA expressions; exact rune-set evaluation of character classes by path enumeration with interval constraints",
         "Decides the structure that determines the accepted language of qualified names: composition/splitting separators and first-occurrence splitting, non-empty halves, the error contract of ParseQualifiedName/IsQualifiedName, "
